@@ -19,6 +19,8 @@ import NemoVerif.Lemmas.Pipeline
 import NemoVerif.Lemmas.PipelineV2
 import NemoVerif.Lemmas.PipelineTie
 
+set_option linter.unusedSimpArgs false
+
 namespace NemoVerif.C01
 open NemoVerif NemoVerif.Pipeline
 
@@ -61,19 +63,20 @@ theorem input_order_v1 (cfg : Cfg) (h : HistV1) (t : Turn) (hi : WF cfg .input) 
 
 /-- `input_before_generation`: the trace splits into a part without any dialog / generation step
     followed by a part without any input-rail call. -/
-theorem input_before_generation_v1 (cfg : Cfg) (h : HistV1) (t : Turn) (hi : WF cfg .input) (ho : WF cfg .output)
-    (hs : h.skip = false) :
+theorem input_before_generation_v1 (cfg : Cfg) (h : HistV1) (t : Turn) (hi : WF cfg .input) :
     ∃ pre post, (turnV1 cfg h t).1 = pre ++ post ∧ (∀ s ∈ pre, s.isGen = false) ∧ railCalls .input post = [] := by
-  rw [turnV1_eq_spec cfg h t hi ho hs, turnSpecV1_trace]
-  refine ⟨inputTraceV1 cfg t, _, rfl, isGen_inputTraceV1 cfg t, ?_⟩
-  cases gateStop t.vin cfg.inRails t.user with
-  | none => exact railCalls_input_afterInputV1 cfg t _
-  | some w => rfl
+  rw [turnV1_input_nf cfg h t hi]
+  cases stopResV1 cfg t.retrFault (gateText t.vin cfg.inRails t.user) (gateStop t.vin cfg.inRails t.user) with
+  | pass um => exact ⟨inputTraceV1 cfg t, _, rfl, isGen_inputTraceV1 cfg t, railCalls_input_genV1 cfg t _ um⟩
+  | blocked => exact ⟨inputTraceV1 cfg t, [], by simp, isGen_inputTraceV1 cfg t, rfl⟩
+  | faulted => exact ⟨inputTraceV1 cfg t, [], by simp, isGen_inputTraceV1 cfg t, rfl⟩
+  | escaped => exact ⟨inputTraceV1 cfg t, [], by simp, isGen_inputTraceV1 cfg t, rfl⟩
 
 /-- `reject_stops`: if an invoked input rail rejects, it is the last input rail that runs, no dialog /
     generation step happens in the turn, and the reply is the refusal — or the rail exception in
-    exception mode (or the internal-error text if producing the refusal itself failed, C03). -/
-theorem reject_stops_v1 (cfg : Cfg) (h : HistV1) (t : Turn) (hi : WF cfg .input) (ho : WF cfg .output) (hs : h.skip = false)
+    exception mode (or the internal-error text if producing the refusal itself failed, C03).
+    Holds from every state `h` and however the output rails are written. -/
+theorem reject_stops_v1 (cfg : Cfg) (h : HistV1) (t : Turn) (hi : WF cfg .input)
     (c : Nat × Text) (hc : c ∈ railCalls .input (turnV1 cfg h t).1) (hr : t.vin c.1 c.2 = .reject) :
     (railCalls .input (turnV1 cfg h t).1).getLast? = some c
     ∧ (∀ s ∈ (turnV1 cfg h t).1, s.isGen = false)
@@ -95,22 +98,30 @@ theorem reject_stops_v1 (cfg : Cfg) (h : HistV1) (t : Turn) (hi : WF cfg .input)
       rw [hlast] at hl
       cases hl
       rw [← hv, hr]
+  have htr : (turnV1 cfg h t).1 = inputTraceV1 cfg t
+      ∧ (turnV1 cfg h t).2.1 = replyV1 (inputTraceV1 cfg t) false := by
+    rw [turnV1_input_nf cfg h t hi, hstop]
+    by_cases he : cfg.exc = true
+    · simp [stopResV1, he]
+    · have he' : cfg.exc = false := by simpa using he
+      cases hrf : t.retrFault <;> simp [stopResV1, he', hrf]
   refine ⟨hlast, ?_, ?_⟩
-  · rw [turnV1_eq_spec cfg h t hi ho hs, turnSpecV1_trace, hstop]
-    simpa using isGen_inputTraceV1 cfg t
-  · rw [turnV1_eq_spec cfg h t hi ho hs]
-    unfold turnSpecV1 inputTraceV1
+  · rw [htr.1]
+    exact isGen_inputTraceV1 cfg t
+  · rw [htr.2]
+    unfold inputTraceV1
     rw [hstop]
     by_cases he : cfg.exc = true
-    · simp [stopResV1, stopStepsV1, he, replyV1, excs]
+    · simp [stopStepsV1, he, replyV1, excs]
     · have he' : cfg.exc = false := by simpa using he
-      cases hrf : t.retrFault <;> simp [stopResV1, stopStepsV1, he', hrf, replyV1, excs, utters]
+      cases hrf : t.retrFault <;> simp [stopStepsV1, he', hrf, replyV1, excs, utters]
 
-/-- `rewrite_propagates`: every dialog / generation LLM call of the turn is given the text the input
-    rails produced (`gateText`: the last rewrite), every input rail is shown the text its predecessor
-    left, and when the turn ends normally the history handed to later turns holds that text. -/
-theorem rewrite_propagates_v1 (cfg : Cfg) (h : HistV1) (t : Turn) (hi : WF cfg .input) (ho : WF cfg .output)
-    (hs : h.skip = false) :
+/-- `rewrite_propagates`: every dialog / generation LLM call of the turn — in general mode, with
+    dialog rails, in single-call mode; passthrough mode uses the same calls with the bare text as
+    prompt — is given the text the input rails produced (`gateText`: the last rewrite), every input
+    rail is shown the text its predecessor left, and when the turn ends normally the history handed to
+    later turns holds that text.  Holds from every state `h` and however the output rails are written. -/
+theorem rewrite_propagates_v1 (cfg : Cfg) (h : HistV1) (t : Turn) (hi : WF cfg .input) :
     (∀ task u, Step.llm task u ∈ (turnV1 cfg h t).1 → u = gateText t.vin cfg.inRails t.user)
     ∧ Chained t.vin t.user (railCalls .input (turnV1 cfg h t).1)
     ∧ ((turnV1 cfg h t).2.2.texts = h.texts
@@ -118,27 +129,28 @@ theorem rewrite_propagates_v1 (cfg : Cfg) (h : HistV1) (t : Turn) (hi : WF cfg .
             ∀ x ∈ said, x = gateText t.vin cfg.inRails t.user ∨ x ∈ utters (turnV1 cfg h t).1) := by
   refine ⟨?_, ?_, ?_⟩
   · intro task u hm
-    rw [turnV1_eq_spec cfg h t hi ho hs, turnSpecV1_trace] at hm
-    rcases List.mem_append.mp hm with h1 | h1
-    · exact absurd h1 (llm_inputTraceV1 cfg t task u)
-    · cases hg : gateStop t.vin cfg.inRails t.user with
-      | none => rw [hg] at h1; exact llm_afterInputV1 cfg t _ task u h1
-      | some w => rw [hg] at h1; simp at h1
-  · rw [input_order_v1 cfg h t hi]
-    exact Pipeline.gate_chained _ _ _
-  · rw [turnV1_eq_spec cfg h t hi ho hs]
-    unfold turnSpecV1
+    rw [turnV1_input_nf cfg h t hi] at hm
     cases hres : stopResV1 cfg t.retrFault (gateText t.vin cfg.inRails t.user) (gateStop t.vin cfg.inRails t.user) with
     | pass um =>
-      have hum : um = gateText t.vin cfg.inRails t.user := by
-        cases hg : gateStop t.vin cfg.inRails t.user with
-        | none => rw [hg] at hres; simp [stopResV1] at hres; exact hres.symm
-        | some w =>
-          rw [hg] at hres
-          cases w <;> simp [stopResV1] at hres <;> (split at hres <;> (try split at hres) <;> cases hres)
-      by_cases hn : (afterInputV1 cfg t um).2 = .normal
+      rw [hres] at hm
+      simp only at hm
+      obtain ⟨_, hum⟩ := stopResV1_pass _ _ _ _ _ hres
+      rcases List.mem_append.mp hm with h1 | h1
+      · exact absurd h1 (llm_inputTraceV1 cfg t task u)
+      · rw [← hum]; exact llm_genV1 cfg t _ um task u h1
+    | blocked => rw [hres] at hm; exact absurd hm (llm_inputTraceV1 cfg t task u)
+    | faulted => rw [hres] at hm; exact absurd hm (llm_inputTraceV1 cfg t task u)
+    | escaped => rw [hres] at hm; exact absurd hm (llm_inputTraceV1 cfg t task u)
+  · rw [input_order_v1 cfg h t hi]
+    exact Pipeline.gate_chained _ _ _
+  · rw [turnV1_input_nf cfg h t hi]
+    cases hres : stopResV1 cfg t.retrFault (gateText t.vin cfg.inRails t.user) (gateStop t.vin cfg.inRails t.user) with
+    | pass um =>
+      obtain ⟨_, hum⟩ := stopResV1_pass _ _ _ _ _ hres
+      simp only
+      by_cases hn : ((genV1 cfg t (stopSkipV1 cfg t.retrFault h.skip (gateStop t.vin cfg.inRails t.user)) um).2.1 == End.normal) = true
       · right
-        refine ⟨um :: utters (afterInputV1 cfg t um).1, by simp [hn], ?_⟩
+        refine ⟨um :: utters (genV1 cfg t (stopSkipV1 cfg t.retrFault h.skip (gateStop t.vin cfg.inRails t.user)) um).1, by simp [hn], ?_⟩
         intro x hx
         rcases List.mem_cons.mp hx with rfl | hx
         · exact Or.inl hum
@@ -182,11 +194,14 @@ theorem input_order_v2 (cfg : Cfg) (h : HistV2) (t : Turn) (hi : WF cfg .input) 
   rw [turnV2_eq_spec cfg h t hi ho hor, turnSpecV2_trace]
   simp [railCalls_input_inStopV2, railCalls_input_restV2]
 
-/-- every 2.x input rail is shown the user's text itself -/
+/-- Which value the 2.x input rails receive: `_user_said` assigns `$text = $event.final_transcript`
+    AFTER the `if $text … else …` match (whatever the waiting flow passed: nothing, a literal, a regular
+    expression), so `$user_message` and the argument of `run input rails` are the UTTERANCE `t.user` —
+    every invoked input rail is shown exactly the user's text. -/
 theorem input_text_v2 (cfg : Cfg) (h : HistV2) (t : Turn) (hi : WF cfg .input) (ho : WF cfg .output) (hor : h.orip = false) :
-    Chained (n2 t.vin) t.user (railCalls .input (turnV2 cfg h t).1) := by
+    ∀ c ∈ railCalls .input (turnV2 cfg h t).1, c.2 = t.user := by
   rw [input_order_v2 cfg h t hi ho hor]
-  exact Pipeline.gate_chained _ _ _
+  exact gate_n2_text t.vin cfg.inRails t.user
 
 /-- `input_before_generation` (2.x). -/
 theorem input_before_generation_v2 (cfg : Cfg) (h : HistV2) (t : Turn) (hi : WF cfg .input) (ho : WF cfg .output) (hor : h.orip = false) :
